@@ -222,6 +222,12 @@ func (c *concretizer) tj(v Value) *TJ {
 			return &TJ{T: "arr", V: []interface{}{}}
 		}
 		elems := []interface{}{}
+		if x.Arr.OrigE != nil && x.Off == 0 && x.Len == len(x.Arr.OrigE) {
+			for _, v := range x.Arr.OrigE {
+				elems = append(elems, c.tj(v))
+			}
+			return &TJ{T: "arr", V: elems}
+		}
 		for i := 0; i < x.Len; i++ {
 			elems = append(elems, c.tj(x.Arr.E[x.Off+i].V))
 		}
